@@ -3,6 +3,7 @@
 //! (b) BFS over histories of the real device against a reference acceptor.
 use crate::checks::{load_case, replay_exit};
 use crate::ctx::{Ctx, Tier, catch, hex, panic_site};
+use crate::adev::{ACore, AEv, AResp, AStep, Script, short_aresp};
 use crate::dev::*;
 use crate::explore::{self, System, V};
 use lorawan_device::verif::VerifMacState;
@@ -229,6 +230,169 @@ impl System for Sys {
     }
 }
 
+// ------------------------------------------------------------------ Class C (async front-end)
+
+/// Events of the Class C part: idle listening with one or two receptions, or an uplink during
+/// whose waits Class C receptions arrive.
+#[derive(Clone, Debug, serde::Serialize, serde::Deserialize, PartialEq, Eq, Hash)]
+pub enum CEv {
+    Listen(Vec<Frame>),
+    Send { rxc1: Vec<Frame>, rxc2: Vec<Frame>, rx2: Option<Frame> },
+}
+
+pub struct SysC {
+    pub core: ACore<14, 0>,
+    alphabet: Vec<CEv>,
+    dev_accepted: HashSet<Vec<u8>>,
+    last_outcome: String,
+}
+
+impl SysC {
+    pub fn new(cfg: &DevCfg) -> SysC {
+        let core = ACore::new(cfg, true);
+        let fr = frames(&cfg.region);
+        let mut alphabet = vec![CEv::Send { rxc1: vec![], rxc2: vec![], rx2: None }];
+        for f in &fr {
+            alphabet.push(CEv::Listen(vec![f.clone()]));
+        }
+        // a rejected reception followed by a good one, and a good one followed by its own replay
+        alphabet.push(CEv::Listen(vec![fr[10].clone(), fr[0].clone()]));
+        alphabet.push(CEv::Listen(vec![fr[0].clone(), Frame::ReplayAccepted(0)]));
+        for f in [&fr[0], &fr[2], &fr[8], &fr[10], &fr[7]] {
+            alphabet.push(CEv::Send { rxc1: vec![f.clone()], rxc2: vec![], rx2: None });
+            alphabet.push(CEv::Send { rxc1: vec![], rxc2: vec![f.clone()], rx2: None });
+        }
+        // Class C reception before RX1, then a Class A downlink in RX2 of the same transaction
+        alphabet.push(CEv::Send { rxc1: vec![fr[0].clone()], rxc2: vec![], rx2: Some(fr[2].clone()) });
+        SysC { core, alphabet, dev_accepted: HashSet::new(), last_outcome: String::new() }
+    }
+
+    fn check(&mut self, st: &AStep, single_listen: bool) -> Vec<V> {
+        let mut out = vec![];
+        if let AResp::Panic(p) = &st.resp {
+            out.push(V { sig: format!("C05|classc|panic|{}", panic_site(p)), what: format!("panic: {p}") });
+            return out;
+        }
+        let fd = |m: &lorawan_device::verif::VerifMac| match m.state {
+            VerifMacState::Joined(s) => s.fcnt_down,
+            _ => None,
+        };
+        // the reference's view after this call: last accepted counter and the application payloads, in order
+        let mut want_dl: Vec<(u8, Vec<u8>)> = vec![];
+        let mut last_n: Option<u32> = None;
+        let mut oc = String::new();
+        for d in &st.deliveries {
+            match &d.judge {
+                Judge::Accept { n, port, plain, .. } => {
+                    oc = format!("accept-{}", d.via);
+                    last_n = Some(*n);
+                    if let Some(p) = port
+                        && *p > 0
+                    {
+                        want_dl.push((*p, plain.clone()));
+                    }
+                    if !self.dev_accepted.insert(d.bytes.clone()) {
+                        out.push(V { sig: format!("C05|classc|reference-accepted-twice|{}", d.label), what: "harness: reference accepted a frame twice".into() });
+                    }
+                }
+                Judge::Reject(why) => oc = format!("reject-{why}-{}", d.via),
+                Judge::Oversize => oc = format!("oversize-{}", d.via),
+                Judge::JoinAccept { .. } => {}
+            }
+        }
+        let ref_last = self.core.net().ref_last;
+        let after = fd(&st.after);
+        if matches!(st.resp, AResp::SessionExpired | AResp::ErrMac(_) | AResp::ErrRadio) {
+            self.last_outcome = short_aresp(&st.resp);
+            return out;
+        }
+        if after != ref_last {
+            let kind = match (after, ref_last) {
+                (Some(a), Some(r)) if a < r => "counter-not-remembered",
+                (None, Some(_)) => "counter-not-remembered",
+                _ => "rejected-frame-changed-counter",
+            };
+            out.push(V {
+                sig: format!("C05|classc|{kind}|{}", st.deliveries.iter().map(|d| d.label.clone()).collect::<Vec<_>>().join("+")),
+                what: format!("after the call fcnt_down = {after:?}, the reference's last accepted counter is {ref_last:?} (deliveries: {:?})", st.deliveries.iter().map(|d| (d.via, d.label.clone(), format!("{:?}", d.judge).chars().take(40).collect::<String>())).collect::<Vec<_>>()),
+            });
+        }
+        // the order in which take_downlink hands queued downlinks out is not part of this property
+        let mut got_dl = st.downlinks.clone();
+        got_dl.sort();
+        want_dl.sort();
+        if got_dl != want_dl {
+            out.push(V {
+                sig: format!("C05|classc|payload|{}", st.deliveries.iter().map(|d| d.label.clone()).collect::<Vec<_>>().join("+")),
+                what: format!("application received {:?}, the reference delivers {:?}", st.downlinks, want_dl),
+            });
+        }
+        if single_listen {
+            // idle listening returns at the first accepted reception and keeps waiting otherwise
+            let want = match last_n {
+                Some(n) => AResp::DownlinkReceived(n),
+                None => AResp::Blocked,
+            };
+            if st.resp != want {
+                out.push(V {
+                    sig: format!("C05|classc|{}|{}", if last_n.is_some() { "authentic-fresh-frame-not-accepted" } else { "rejected-frame-acted-on" }, st.deliveries.first().map(|d| d.label.clone()).unwrap_or_default()),
+                    what: format!("rxc_listen answered {:?}, expected {:?}", st.resp, want),
+                });
+            }
+        }
+        if oc.is_empty() {
+            oc = short_aresp(&st.resp);
+        }
+        self.last_outcome = oc;
+        out
+    }
+}
+
+impl System for SysC {
+    type Ev = CEv;
+    type Key = (lorawan_device::verif::VerifMac, Option<u32>, Vec<Vec<u8>>);
+
+    fn enabled(&self) -> Vec<CEv> {
+        // rxc_listen relies on the continuous reception the device set up after its last uplink
+        let listening = {
+            let g = self.core.inner.borrow();
+            g.cur_max_len > 0 && !g.cur_single
+        };
+        self.alphabet.iter().filter(|e| listening || !matches!(e, CEv::Listen(_))).cloned().collect()
+    }
+
+    fn step(&mut self, ev: &CEv) -> Vec<V> {
+        let (aev, single) = match ev {
+            CEv::Listen(f) => (AEv::Listen { frames: f.clone(), fault_at: None }, f.len() == 1),
+            CEv::Send { rxc1, rxc2, rx2 } => (AEv::Send { confirmed: false, port: 1, len: 1, script: Script { rx1: None, rx2: rx2.clone(), rxc1: rxc1.clone(), rxc2: rxc2.clone(), fault_at: None } }, false),
+        };
+        match self.core.apply(&aev) {
+            Some(st) => self.check(&st, single),
+            None => vec![],
+        }
+    }
+
+    fn key(&self) -> Self::Key {
+        let mut s = self.core.snap();
+        if let VerifMacState::Joined(ref mut j) = s.state {
+            j.fcnt_up = 0;
+            j.adr_ack_cnt = 0;
+        }
+        s.data_rate = 0;
+        let net = self.core.net();
+        let tail: Vec<Vec<u8>> = net.accepted.iter().rev().take(2).cloned().collect();
+        (s, net.ref_last, tail)
+    }
+
+    fn alive(&self) -> bool {
+        self.core.dead.is_none()
+    }
+
+    fn outcome(&self) -> String {
+        self.last_outcome.clone()
+    }
+}
+
 fn arithmetic(ctx: &Ctx, th: bool) -> (u64, u64) {
     use lorawan_device::mac::verif_next_fcnt_down;
     let w: i64 = if th { 70_000 } else { 300 };
@@ -325,6 +489,11 @@ pub fn run(tier: Tier, replay: Option<&str>) {
             println!("next_fcnt_down({last:?},{wire:#x}) = {got:?}, specification {want:?}");
             replay_exit("C05", path, if got != want { vec!["C05|arith".into()] } else { vec![] });
         }
+        if let Some(cc) = c["cfg"].get("class_c_cfg") {
+            let cfg: DevCfg = serde_json::from_value(cc.clone()).expect("cfg");
+            let hist: Vec<CEv> = serde_json::from_value(c["history"].clone()).expect("history");
+            replay_exit("C05", path, explore::replay(&|| SysC::new(&cfg), &hist));
+        }
         let cfg: DevCfg = serde_json::from_value(c["cfg"].clone()).expect("cfg");
         let hist: Vec<Ev> = serde_json::from_value(c["history"].clone()).expect("history");
         let sigs = explore::replay(&|| Sys::new(&cfg), &hist);
@@ -349,6 +518,18 @@ pub fn run(tier: Tier, replay: Option<&str>) {
             *outcomes.entry(k).or_insert(0) += v;
         }
     }
+    // Class C receptions on the async front-end
+    let depth_c = if th { 4 } else { 3 };
+    for cfg in &cfgs {
+        let cj = json!({"class_c_cfg": serde_json::to_value(cfg).unwrap()});
+        let st = explore::bfs(&ctx, &cj, &|| SysC::new(cfg), depth_c, 3_000_000);
+        states += st.states;
+        transitions += st.transitions;
+        capped |= st.capped;
+        for (k, v) in st.outcomes {
+            *outcomes.entry(format!("classc:{k}")).or_insert(0) += v;
+        }
+    }
     let sample_hist = vec![
         Ev::Cycle { confirmed: false, port: 1, len: 1, rx1: Some(frames("EU868")[0].clone()), rx2: None },
         Ev::Cycle { confirmed: false, port: 1, len: 1, rx1: None, rx2: Some(Frame::ReplayAccepted(0)) },
@@ -363,7 +544,7 @@ pub fn run(tier: Tier, replay: Option<&str>) {
         ],
         "evaluations": ctx.evals(),
         "distinct_nontrivial": states,
-        "rule": "part (a): real next_fcnt_down (hook wrapper) for all 65536 wire values x every `last` in None + [b-W,b+W] around b in {0,0x10000,0x7FFFFFFF,0x80000000,0xFFFF0000,2^32-1} + a stride over the whole range, compared with the u64 specification rule; part (b): BFS over histories of whole uplink transactions on the real nb device, each delivering one frame of the alphabet (fresh +1/+2/+16384/+16385/+65536, same counter, older, replays of the last two accepted frames, forged MIC, other session, MIC under N+-65536, uplink-typed, port 0, at-limit and over-limit sizes) in RX1 or RX2, from sessions whose downlink counter starts at epoch boundaries; states = distinct (device snapshot minus uplink/ADR counters, reference counter, last two accepted frames)",
+        "rule": "part (a): real next_fcnt_down (hook wrapper) for all 65536 wire values x every `last` in None + [b-W,b+W] around b in {0,0x10000,0x7FFFFFFF,0x80000000,0xFFFF0000,2^32-1} + a stride over the whole range, compared with the u64 specification rule; part (b): BFS over histories of whole uplink transactions on the real nb device, each delivering one frame of the alphabet (fresh +1/+2/+16384/+16385/+65536, same counter, older, replays of the last two accepted frames, forged MIC, other session, MIC under N+-65536, uplink-typed, port 0, at-limit and over-limit sizes) in RX1 or RX2, from sessions whose downlink counter starts at epoch boundaries; part (c): the same on the async device in Class C (idle rxc_listen with one or two receptions, receptions while waiting for RX1 / RX2, followed by a Class A downlink); states = distinct (device snapshot minus uplink/ADR counters, reference counter, last two accepted frames)",
         "arith_last_values": n_last,
         "arith_pairs": n_last * 65536,
         "arith_accepting_pairs": arith_accepts,
@@ -384,6 +565,11 @@ pub fn run(tier: Tier, replay: Option<&str>) {
                 _ => ctx_sigs_for_arith(last, wire),
             };
         }
+        if let Some(cc) = cj["cfg"].get("class_c_cfg") {
+            let cfg: DevCfg = serde_json::from_value(cc.clone()).unwrap();
+            let hist: Vec<CEv> = serde_json::from_value(cj["history"].clone()).unwrap();
+            return explore::replay(&|| SysC::new(&cfg), &hist);
+        }
         let cfg: DevCfg = serde_json::from_value(cj["cfg"].clone()).unwrap();
         let hist: Vec<Ev> = serde_json::from_value(cj["history"].clone()).unwrap();
         explore::replay(&|| Sys::new(&cfg), &hist)
@@ -395,7 +581,7 @@ pub fn run(tier: Tier, replay: Option<&str>) {
             "the implementation is the model (real nb_device::Device driven through its public API); reference acceptor = refcodec + the u64 freshness rule in dev.rs".into(),
             "the window's size limit is taken from the RfConfig the device bound to the window (its regional correctness is C10's subject)".into(),
             "DevAddr and direction are not required to be checked: the statement only speaks of MIC and counter".into(),
-            "Class C receptions are covered by the async part (not in this check yet)".into(),
+            "Class C: the async device with Class C enabled receives the same frame alphabet while idle listening and while waiting for RX1 / RX2; after every call the device's downlink counter must equal the reference's last accepted counter and the application must have received exactly the reference's payloads".into(),
         ],
         Some(&replayer),
     );
